@@ -19,7 +19,8 @@ RULE = (
     "creating objects under other MasterConfig defaults, setting and restoring MasterConfig, clearing / disabling / "
     "re-enabling / pre-warming the TRS cache (with near-miss and probe strings), mutating dicts and lists returned by "
     "trs_to_dict / to_dict / to_list / tracts_to_dict / list_trs / group_by / Config, creating objects whose parse is deferred to a later step, building several objects from one "
-    "shared Config object and parsing them with keyword overrides, parsing a Tract as a dry run before parsing it for good - interleaved with probe evaluations "
+    "shared Config object and parsing them with keyword overrides, parsing a Tract as a dry run before parsing it for good, parsing one object 1..3 times with "
+    "one-off keyword overrides (committed or not) and then plainly - interleaved with probe evaluations "
     "from a pool of 100+ probe calls (descriptions, tracts, TRS constructions and decompositions, find_twprge, with settings). "
     "Every probe result is compared with the result of the same probe in a fresh interpreter (subprocesses, 6 probes each) "
     "started under the MasterConfig defaults in force at that moment. A second sub-check parses any text of the C03 space under any settings through any entry "
@@ -64,6 +65,14 @@ for a in FROM:
     PROBES.append(["tract_from_twprgesec", list(a)])
 for text, _ in DESCS[:7] + DESCS[-3:]:
     PROBES.append(["find_twprge", text])
+# (appended last so that the indices used by committed replay files keep their meaning)
+TRACTS2 = [("NE, SW and Lot 1", "parse_qq"), ("N/2NE/4, NE/4NE/4", "parse_qq"), ("Lots 1 - 3, N/2 of Lot 2, Lot 2", "parse_qq"),
+           ("Northeast Quarter, NE, Lots 4 - 2", "parse_qq,qq_depth_min.1")]
+TRACT_PROBE = {k: len(DESCS) + k for k in range(len(TRACTS))}
+for desc, cfg in TRACTS2:
+    TRACT_PROBE[len(TRACT_PROBE)] = len(PROBES)
+    PROBES.append(["tract", desc, cfg])
+ALL_TRACTS = TRACTS + TRACTS2
 
 
 def trs_attrs(t):
@@ -152,6 +161,10 @@ SIDE = ["T1N-R1E Sec 1: Lots 1 - 3", "154-97 Sec 14: NE/4", "T154-R97 Sec 14: SW
         "TIS4N-R97W Sec 1: ALL"]
 NEAR = ["154n97w1", "154n97w144", "54n97w14", "154n97w14 ", "154N97W14", "154n97e14", "154s97w14", "154n97w", "154n97", "x154n97w14", "154n097w14"]
 
+OV_PLSS = [{"sec_colon_required": True}, {"segment": True}, {"layout": "copy_all"}, {"ocr_scrub": True}, {"clean_qq": True, "parse_qq": True},
+           {"default_ns": "s", "default_ew": "e"}, {"sec_within": True}, {"qq_depth": 1, "parse_qq": True}]
+OV_TRACT = [{"clean_qq": True}, {"qq_depth": 1}, {"suppress_lot_divs": True}, {"break_halves": True, "qq_depth_min": 1}]
+
 OP = st.one_of(
     st.tuples(st.just("probe"), st.integers(0, len(PROBES) - 1)),
     st.tuples(st.just("probe"), st.integers(0, len(PROBES) - 1)),
@@ -172,6 +185,9 @@ OP = st.one_of(
     # one Config object per description, shared by every object built for it in this history
     st.tuples(st.just("use_shared_config"), st.integers(0, len(DESCS) - 1), st.booleans(), st.sampled_from(["plss", "tract"])),
     st.tuples(st.just("probe_shared_config"), st.integers(0, len(DESCS) - 1)),
+    # one object parsed several times with one-off keyword overrides (committed or not), then plainly: keywords do not outlive their call
+    st.tuples(st.just("object_history"), st.sampled_from(["plss", "tract"]), st.integers(0, 40),
+              st.lists(st.tuples(st.booleans(), st.integers(0, 7)), min_size=1, max_size=3)),
     # a Tract that is first parsed as a dry run and then for good
     st.tuples(st.just("tract_dry_run_first"), st.integers(0, len(TRACTS) - 1), st.integers(1, 2)),
 ).map(list)
@@ -300,6 +316,38 @@ def oracle(c):
                     fails.append(Failure(f"history_dependence:shared_config:{field}",
                                          f"step {i}: {PROBES[j]} built from the Config object other objects of this history were built from gives {json.dumps(got)[:300]}, a fresh interpreter (config text) gives {json.dumps(want)[:300]}",
                                          probe=PROBES[j], ops=c["ops"][:i + 1]))
+                    break
+            elif name == "object_history":
+                ns, ew = MasterConfig.default_ns, MasterConfig.default_ew
+                if op[1] == "plss":
+                    j = op[2] % len(DESCS)
+                    text, cfg = DESCS[j]
+                    obj = PLSSDesc(text, config=cfg)
+                    for commit, k in op[3]:
+                        obj.parse(commit=commit, **OV_PLSS[k % len(OV_PLSS)])
+                    obj.parse()
+                    want = REFERENCE[(ns, ew, j)]
+                    got = _norm({"pp": obj.pp_desc, "layout": obj.current_layout, "flags": sorted(map(str, obj.flags)),
+                                 "tracts": [[x.trs, x.desc, list(x.lots), list(x.qqs), sorted(map(str, x.flags)), x.twp_num, x.rge_ew] for x in obj.tracts]})
+                    jj = j
+                else:
+                    k0 = op[2] % len(ALL_TRACTS)
+                    desc, cfg = ALL_TRACTS[k0]
+                    if "parse_qq" not in cfg.split(","):
+                        continue
+                    jj = TRACT_PROBE[k0]
+                    obj = Tract(desc, trs="154n97w14", config=cfg)
+                    for commit, k in op[3]:
+                        obj.parse(commit=commit, **OV_TRACT[k % len(OV_TRACT)])
+                    obj.parse()
+                    want = REFERENCE[(ns, ew, jj)]
+                    got = _norm({"pp": obj.pp_desc, "lots": list(obj.lots), "qqs": list(obj.qqs), "acres": dict(obj.lot_acres), "flags": sorted(map(str, obj.flags)), "trs": obj.trs})
+                if got != want:
+                    field = next((kk for kk in want if got.get(kk) != want[kk]), "?")
+                    steps = [("parse" if cm else "dry run") + f" {(OV_PLSS if op[1] == 'plss' else OV_TRACT)[k % len(OV_PLSS if op[1] == 'plss' else OV_TRACT)]}" for cm, k in op[3]]
+                    fails.append(Failure(f"history_dependence:same_object_{op[1]}:{field}",
+                                         f"step {i}: {PROBES[jj]} after {steps} and a plain parse() gives {json.dumps(got)[:300]}, a fresh interpreter gives {json.dumps(want)[:300]}",
+                                         probe=PROBES[jj], ops=c["ops"][:i + 1]))
                     break
             elif name == "tract_dry_run_first":
                 k = op[1]
@@ -448,7 +496,7 @@ SUBS = [
     Sub("histories", oracle, strategy=lambda tier: CASE, nontrivial=lambda c: bool(_last.get("nt")), classes=classes, render=lambda c: c,
         n={"quick": 1500, "thorough": 12000}, shards={"quick": 8, "thorough": 16},
         essential=("op=probe", "op=set_master", "op=clear_cache", "op=cache_off", "op=prewarm", "op=mutate_trs_dict", "op=mutate_outputs",
-                   "op=under_defaults", "op=create_deferred", "op=parse_deferred", "op=use_shared_config", "op=probe_shared_config", "op=tract_dry_run_first", "nontrivial")),
+                   "op=under_defaults", "op=create_deferred", "op=parse_deferred", "op=use_shared_config", "op=probe_shared_config", "op=tract_dry_run_first", "op=object_history", "nontrivial")),
     Sub("after_any_parse", oracle_any, strategy=lambda tier: ANY_CASE, nontrivial=lambda c: bool(c["cfg"]) or bool(c["follow"]),
         classes=lambda c: _parsing.text_classes(c) + [f"follow={f}" for f in c["follow"]], render=lambda c: dict(_parsing.render(c), follow=c["follow"]),
         n={"quick": 700, "thorough": 8000}, shards={"quick": 6, "thorough": 16}, text_keys=("text",),
